@@ -13,7 +13,7 @@ let geti k d l = int_of_string (get k (string_of_int d) l)
    call k of thread t in round r allocates one block of this many bytes. *)
 let asize t r k = 64 * (t + 1) + 8 * r + k + 1
 
-type case = { t : int; r : int; n : int; dout : bool; din : bool; grd : bool; faults : (int * int * int) list; test : bool; noinfo : int }
+type case = { t : int; r : int; n : int; dout : bool; din : bool; grd : bool; faults : (int * int * int) list; test : bool; noinfo : int; mask : string list }
 
 (* fault token: t:r:g:k | t:r:c:k | t:r:o:k | t:r:i:k  (generator, call, drop of output, drop of input) *)
 let pos_of n dout din ph k =
@@ -34,7 +34,14 @@ let parse_case line =
     | s -> List.map (fun f -> match String.split_on_char ':' f with
         | [t; r; ph; k] -> (int_of_string t, int_of_string r, pos_of n dout din ph (int_of_string k))
         | _ -> failwith "fault") (String.split_on_char ',' s) in
-  { t = geti "T" 2 l; r = geti "R" 1 l; n; dout; din; grd = get "guard" "1" l = "1"; faults; test = get "test" "0" l = "1"; noinfo = geti "noinfo" (-1) l }
+  { t = geti "T" 2 l; r = geti "R" 1 l; n; dout; din; grd = get "guard" "1" l = "1"; faults; test = get "test" "0" l = "1"; noinfo = geti "noinfo" (-1) l;
+    mask = (match get "mask" "" l with "" -> [] | m -> String.split_on_char ',' m) }
+
+(* mask: per round (cycling) one character per thread, '1' = the thread allocates in its calls *)
+let allocates (c : case) t r =
+  match c.mask with
+  | [] -> true
+  | ms -> let m = List.nth ms (r mod List.length ms) in t < String.length m && m.[t] = '1' 
 
 let config_of ?(fault_all = None) (c : case) : config =
   { nthreads = nat_of_int c.t; nrounds = nat_of_int c.r; ssize = (fun _ -> nat_of_int c.n);
@@ -45,7 +52,8 @@ let config_of ?(fault_all = None) (c : case) : config =
     allocs = (fun i r p ->
       let p = int_of_nat p in
       if p >= c.n + 4 && p < 2 * c.n + 4
-      then [Alloc (n_of_small (asize (int_of_nat i) (int_of_nat r) (p - c.n - 4)))]
+      then (if allocates c (int_of_nat i) (int_of_nat r)
+            then [Alloc (n_of_small (asize (int_of_nat i) (int_of_nat r) (p - c.n - 4)))] else [])
       else if p < c.n then [Alloc (n_of_small 7777); Dealloc (n_of_small 7777)]   (* generator noise *)
       else [Alloc (n_of_small 3333); Dealloc (n_of_small 3333)]) }                (* drop noise *)
 
@@ -117,18 +125,16 @@ let split_impl s =
   | [o; l; a] -> (o, l, a)
   | _ -> failwith "impl line"
 
-(* Action::Test runs the round but records no sample *)
+(* Action::Test runs the round but records no sample.  Otherwise: the model of the
+   caller's bookkeeping, [records]: index r*T+t -> thread t's tally of round r, no entry
+   for an empty tally. *)
 let model_allocs (c : case) cfg =
   if c.test then "" else
-  let b = Buffer.create 64 in
-  for r = 0 to c.r - 1 do
-    for t = 0 to c.t - 1 do
-      let ((ac, ab), (dc, db)) = summarise (own_allocs cfg (nat_of_int t) (nat_of_int r)) in
-      Buffer.add_string b (Printf.sprintf "%s%d.%d:%s,%s,%s,%s,0,0,0,0" (if Buffer.length b > 0 then " " else "") r t
-        (string_of_n ac) (string_of_n ab) (string_of_n dc) (string_of_n db))
-    done
-  done;
-  Buffer.contents b
+  String.concat " " (List.map (fun (k, s) ->
+    let k = int_of_nat k in
+    let ((ac, ab), (dc, db)) = summarise s in
+    Printf.sprintf "%d.%d:%s,%s,%s,%s,0,0,0,0" (k / c.t) (k mod c.t)
+      (string_of_n ac) (string_of_n ab) (string_of_n dc) (string_of_n db)) (records cfg))
 
 let outcome_s = function
   | None -> "ok"
